@@ -460,16 +460,37 @@ def bounded(ctx):
                     fails.add(prob.sig, prob.what, {"multiline": True, "seq": seq})
         ctx.done(exhaustive=True, note=fails.note())
 
+        # ---- 6. multi-line format on a section output
+        ctx.check("multiline_section", "the same two-line format on a section output below another section (terminal 120 columns): "
+                                       "all sequences up to length 3 over {start, advance(1), display, clear, finish, set_message}; "
+                                       "the screen shows the header section and exactly the latest frame")
+        fails = _Failures(ctx)
+        for L in (1, 2, 3):
+            for idx in _sequences(alphabet, L):
+                seq = [[0] + list(alphabet[i]) for i in idx]
+                prob = run_multiline(seq, clock, section=True)
+                ctx.case(seq, nontrivial=L >= 2, sample=" ".join(s[1] for s in seq))
+                if prob is not None:
+                    fails.add("section-" + prob.sig, prob.what, {"multiline": True, "section": True, "seq": seq})
+        ctx.done(exhaustive=True, note=fails.note())
 
-def run_multiline(seq, clock):
-    """two-line frames: the line written before the bar must survive, the two lines below show the latest frame"""
+
+def run_multiline(seq, clock, section=False):
+    """two-line frames: the line written before the bar must survive, the two lines below show the latest frame
+    (section=True: the bar owns a section output below another section that holds the header line)"""
     from clikit.io import BufferedIO
     from clikit.ui.components import ProgressBar
 
     clock.ms = 0
     io = BufferedIO(formatter=_formatter(True))
-    io.error_output.write_line("HEADER")
-    bar = ProgressBar(io, 10, 0)
+    target = io
+    if section:
+        above = io.section()
+        above.error_output.write_line("HEADER")
+        target = io.section()
+    else:
+        io.error_output.write_line("HEADER")
+    bar = ProgressBar(target, 10, 0)
     bar.set_bar_width(5)
     bar.set_format("%message%\n%current%/%max% [%bar%]")
     mi = 0
@@ -513,7 +534,7 @@ def replay_bounded(check_id, failure):
     w = failure.get("witness") or {}
     with _Env() as clock:
         if w.get("multiline"):
-            prob = run_multiline(w["seq"], clock)
+            prob = run_multiline(w["seq"], clock, section=bool(w.get("section")))
         else:
             probs, _ = run_sequence(w["cfg"], w["seq"], clock)
             probs = [p for p in probs if p.sig == failure.get("signature")] or probs
